@@ -27,6 +27,11 @@ import (
 	"verif/internal/instrument"
 )
 
+var (
+	maxViol     = 3
+	shrinkLimit = 60 * time.Second
+)
+
 type tierCfg struct {
 	runs   int           // total scenarios (upper bound)
 	budget time.Duration // wall-clock budget for the exploration phase
@@ -167,6 +172,8 @@ func main() {
 	keep := flag.Bool("keep", false, "keep the scratch directory")
 	selftest := flag.Bool("selftest", false, "determinism self-test instead of a check")
 	noEvidence := flag.Bool("no-evidence", false, "do not write the evidence file")
+	flag.IntVar(&maxViol, "maxviol", 3, "violations shrunk and reported per worker")
+	flag.DurationVar(&shrinkLimit, "shrink", 60*time.Second, "time limit for minimising one violation")
 	flag.Parse()
 	if *tier == "" {
 		*tier = "quick"
@@ -484,7 +491,7 @@ func runWorkers(worker, sites, known, replayDir, prop, tier string, seed uint64,
 			out := filepath.Join(outDir, fmt.Sprintf("w%d.json", i))
 			args := []string{"-p", prop, "-tier", tier, "-worker", strconv.Itoa(i),
 				"-seed0", strconv.FormatUint(seed<<24+uint64(i)*uint64(per), 10), "-runs", strconv.Itoa(per),
-				"-budget", tc.budget.String(), "-out", out, "-sites", sites, "-known", known, "-replaydir", replayDir}
+				"-budget", tc.budget.String(), "-maxviol", strconv.Itoa(maxViol), "-shrink", shrinkLimit.String(), "-out", out, "-sites", sites, "-known", known, "-replaydir", replayDir}
 			if traceLog {
 				args = append(args, "-tracelog")
 			}
